@@ -178,6 +178,19 @@ def run_case(c, stats):
         nontrivial = bool(ref.trans) and not ref.is_empty() and not rn.complement(ref).is_empty()
         if str_collision(ref):
             stats.cls("state_str_collision")
+        # what was added through the public API is what the automaton holds (the contracts below read the
+        # structure back from the library object and would not see a transition lost or replaced at construction)
+        want = gfa.ref_of_case(c)
+        if want is not None:
+            core.LOG.count("C01.construction")
+            if (ref.trans, ref.starts, ref.finals) != (want.trans, want.starts, want.finals) or \
+                    not want.states <= ref.states:
+                core.report(PROP, "construct", "automaton-differs-from-what-was-added",
+                            {"missing": sorted(map(repr, want.trans - ref.trans))[:3],
+                             "extra": sorted(map(repr, ref.trans - want.trans))[:3],
+                             "starts": [sorted(map(repr, ref.starts)), sorted(map(repr, want.starts))],
+                             "finals": [sorted(map(repr, ref.finals)), sorted(map(repr, want.finals))]},
+                            ["kind:" + kind, "form:" + str(c.get("form"))])
     words = list(gfa.words_for(c, c.get("words", 3)))
     for i, w in enumerate(words):
         call(fa.accepts, values.word_form(w, i, wrap=Symbol))
